@@ -1,4 +1,5 @@
 import Uniseg.Proofs.ChainStep
+import Uniseg.Gen.Facts
 /-! # C15 — EastAsianAmbiguousWidth changes only the width of Ambiguous code points
 
 `amb` is the value of the configuration variable; in the model it is an explicit parameter of
@@ -188,6 +189,15 @@ theorem step_flags_amb (isString : Bool) (k : Nat) (rs : List Rune) :
       (chain (stepR isString 1) rs none).map (fun x => (x.1, flagsOf x.2.1)) := by
   rw [gen_chainV trStep isBStep (stepR isString k) decS flagsOf flagsHv (step_isFirstCut_flags isString k),
       gen_chainV trStep isBStep (stepR isString 1) decS flagsOf flagsHv (step_isFirstCut_flags isString 1)]
+
+/-- **facts (regenerated from /repo)**: the configuration variable is read by `runeWidth` only, no
+function writes it or takes its address — which is why `amb` is a parameter of exactly the functions
+that can reach `runeWidth` and of nothing else in the model -/
+theorem config_only_read_in_runeWidth :
+    (Uniseg.Gen.fnFacts.all fun f =>
+      (!f.globalsRead.contains "EastAsianAmbiguousWidth" || f.name == "runeWidth") &&
+      !f.globalsWritten.contains "EastAsianAmbiguousWidth" && !f.globalsAddrTaken.contains "EastAsianAmbiguousWidth") = true := by
+  decide +kernel
 
 /-- non-vacuity: U+00A1 (Ambiguous) has width `amb`; "a" has width 1 whatever `amb` is -/
 example : runeWidth 7 0xA1 (propertyGraphemes 0xA1) = 7 ∧ runeWidth 7 0x61 (propertyGraphemes 0x61) = 1 ∧
